@@ -1,36 +1,42 @@
 /-
   Tie A for the analytic spectral closed forms (C04): the hand-written functions of `GSV.Model.Spectral`
-  (`gauDensity`, `gauCdf`, `gauPpf`, `expDensity`, `expCdf`, `maternDensity`, `jbesselDensity`) are EQUAL, for all
-  parameters and arguments, to the definitions that `vlib/pyexpr2lean.py` regenerates from the current text of
+  (`gauDensity`, `gauCdf`, `gauPpf`, `expDensity`, `expCdf`, `maternDensity`, `jbesselDensity`) are EQUAL over `ℝ`, for
+  all parameters and arguments, to the definitions that `vlib/pyexpr2lean.py` regenerates from the current text of
   `src/gstools/covmodel/models.py` on every run of `./check` (`GSV/Gen/SpectralFormulas.lean`).
+
+  The theorems `*_eq_model_real` are the registered obligations, proved by `tie_real` (`GSV/Props/GenTieReal.lean`:
+  unfold, vocabulary, normal form of roots / powers / ring subterms, split, `ring1 | ring_nf | field_simp; ring1`), which
+  keeps checking when a source formula is rewritten into a real-equal one (hoisted prefactors, `a / b / c` -> `a / (b c)`,
+  `base ** ((d+1)/2)` -> `sqrt(base) ** (d+1)` where `base ≥ 0` is found by `positivity`) and stops checking on a semantic
+  edit.  No side condition on the arguments is needed; `Matern.spectral_density` is proved branch by branch because in
+  the branch `nu > 20` the fact `0 < nu` is what makes `(√b)^(-d) = b^(-d/2)` with `b = 1 + x/nu` true.
+  The carrier-polymorphic form of the same equalities is in `GenTieSpectralExact.lean` (informative).
 
   The scipy functions (`erf`, `erfinv`, `gamma`, `loggamma`) are uninterpreted in both texts: the generated
   definitions take `sps : Sps α`, the model takes `sp : Special α`; `specialOf sps` is the obvious forgetful map
   (every `Special` is `specialOf` of some `Sps`, `specialOf_surjective`).
-  * `Gaussian.spectral_density`, `Gaussian.spectral_rad_cdf / _ppf`, `Exponential.spectral_rad_cdf`,
-    `Matern.spectral_density`: equal on every carrier (the `if self.dim == 1 … return None` chains are the
-    model's `match`).
   * `Exponential.spectral_density`: the model evaluates `Γ((d+1)/2)` by the half-integer recursion `gammaHalf`;
-    equality under the hypothesis that `sps.gamma` agrees with it on half-integers (on every carrier).
-  * `JBessel.spectral_density`: over `ℝ` (the code clips the divisor with `np.minimum(·, 100.0)` inside an `if`,
-    the model writes the clipped divisor as a nested `if`; equal by case distinction).
+    equality under the hypothesis that `sps.gamma` agrees with it on half-integers.
+  * `JBessel.spectral_density`: the code clips the divisor with `np.minimum(·, 100.0)` inside an `if`, the model writes
+    the clipped divisor as a nested `if`; both are read as `min`.
   Not generated: `Exponential.spectral_rad_ppf` (`np.divide(…, out=…, where=…)` is outside the subset),
   `Integral / HyperSpherical.spectral_density` (`np.empty_like` + in-place updates), the TPL spectra
   (`gstools.tools.special`).
 -/
 import GSV.RealInst
+import GSV.Props.GenTieReal
 import GSV.Model.Spectral
 import GSV.Gen.SpectralFormulas
 
 set_option linter.unusedSectionVars false
 
 namespace GSV.Props.GenTieSpectral
-open GSV GSV.Transc GSV.PyExpr GSV.Model.Spectral GSV.Gen.SpectralFormulas
+open GSV GSV.Transc GSV.PyExpr GSV.Model.Spectral GSV.Gen.SpectralFormulas GSV.Props.GenTieReal
 
 variable {α : Type} [Arith α] [Transc α] [DecidableLT α] [DecidableLE α]
 
 /-- the special functions of the model, read off the `scipy.special` parameter of the generated definitions -/
-def specialOf (sps : Sps α) : Special α :=
+@[reducible] def specialOf (sps : Sps α) : Special α :=
   { erf := sps.erf, erfinv := sps.erfinv, gamma := sps.gamma, lgamma := sps.loggamma }
 
 theorem specialOf_surjective (sp : Special α) : ∃ sps : Sps α, specialOf sps = sp :=
@@ -39,52 +45,41 @@ theorem specialOf_surjective (sp : Special α) : ∃ sps : Sps α, specialOf sps
 
 theorem arctan_eq (x : α) : arctan x = Model.Spectral.atan x := rfl
 
-/-! ### Gaussian -/
+/-! ### the obligations: equality over `ℝ`, robust against real-equal rewrites of the source -/
 
-theorem Gaussian_spectral_density_eq_model (d : Nat) (ℓ k : α) :
-    Gaussian.spectral_density d ℓ k = gauDensity d ℓ k := rfl
+theorem Gaussian_spectral_density_eq_model_real (d : Nat) (ℓ k : ℝ) :
+    Gaussian.spectral_density d ℓ k = gauDensity d ℓ k := by
+  tie_real [Gaussian.spectral_density, gauDensity]
 
-theorem Gaussian_spectral_rad_cdf_eq_model (sps : Sps α) (d : Nat) (ℓ r : α) :
+theorem Gaussian_spectral_rad_cdf_eq_model_real (sps : Sps ℝ) (d : Nat) (ℓ r : ℝ) :
     Gaussian.spectral_rad_cdf sps d ℓ r = gauCdf (specialOf sps) d ℓ r := by
-  rcases d with _ | _ | _ | _ | d <;> rfl
+  tie_real [Gaussian.spectral_rad_cdf, gauCdf, specialOf]
 
-theorem Gaussian_spectral_rad_ppf_eq_model (sps : Sps α) (d : Nat) (ℓ u : α) :
+theorem Gaussian_spectral_rad_ppf_eq_model_real (sps : Sps ℝ) (d : Nat) (ℓ u : ℝ) :
     Gaussian.spectral_rad_ppf sps d ℓ u = gauPpf (specialOf sps) d ℓ u := by
-  rcases d with _ | _ | _ | d <;> rfl
+  tie_real [Gaussian.spectral_rad_ppf, gauPpf, specialOf]
 
-/-! ### Exponential -/
-
-theorem Exponential_spectral_density_eq_model (sps : Sps α) (d : Nat) (ℓ k : α)
-    (H : ∀ n : Nat, sps.gamma (((n:Nat):α) / ((2:Nat):α)) = gammaHalf n) :
+/-- relative to `sps.gamma(n / 2) = gammaHalf n` (used at `n = d + 1`; normalised together with the goal) -/
+theorem Exponential_spectral_density_eq_model_real (sps : Sps ℝ) (d : Nat) (ℓ k : ℝ)
+    (H : ∀ n : Nat, sps.gamma (((n:Nat):ℝ) / ((2:Nat):ℝ)) = gammaHalf n) :
     Exponential.spectral_density sps d ℓ k = expDensity d ℓ k := by
-  simp only [Exponential.spectral_density, expDensity, H]
+  have H' := H (d + 1)
+  tie_real_using H' [Exponential.spectral_density, expDensity]
 
-theorem Exponential_spectral_rad_cdf_eq_model (d : Nat) (ℓ r : α) :
+theorem Exponential_spectral_rad_cdf_eq_model_real (d : Nat) (ℓ r : ℝ) :
     Exponential.spectral_rad_cdf d ℓ r = expCdf d ℓ r := by
-  rcases d with _ | _ | _ | _ | d <;> rfl
+  tie_real [Exponential.spectral_rad_cdf, expCdf, ← arctan_eq]
 
-/-! ### Matern -/
+theorem Matern_spectral_density_eq_model_real (sps : Sps ℝ) (d : Nat) (ℓ ν k : ℝ) :
+    Matern.spectral_density sps d ℓ ν k = maternDensity (specialOf sps) d ℓ ν k := by
+  by_cases hν : ν > ((20:Nat):ℝ)
+  · have hpos : 0 < ν := lt_trans (by norm_num) hν
+    tie_real [Matern.spectral_density, maternDensity, specialOf, if_pos hν]
+  · tie_real [Matern.spectral_density, maternDensity, specialOf, if_neg hν]
 
-theorem Matern_spectral_density_eq_model (sps : Sps α) (d : Nat) (ℓ ν k : α) :
-    Matern.spectral_density sps d ℓ ν k = maternDensity (specialOf sps) d ℓ ν k := rfl
-
-/-! ### JBessel -/
-
-theorem JBessel_spectral_density_eq_model (sps : Sps ℝ) (d : Nat) (ℓ ν k : ℝ) :
+theorem JBessel_spectral_density_eq_model_real (sps : Sps ℝ) (d : Nat) (ℓ ν k : ℝ) :
     JBessel.spectral_density sps d ℓ ν k = jbesselDensity (specialOf sps) d ℓ ν k := by
-  have hmin : ∀ g : ℝ, minimum g ((100:Nat):ℝ) = if ((100:Nat):ℝ) < g then ((100:Nat):ℝ) else g := by
-    intro g
-    unfold minimum
-    by_cases h1 : g < ((100:Nat):ℝ)
-    · rw [if_pos h1, if_neg (not_lt.mpr h1.le)]
-    · rw [if_neg h1]
-      rcases (not_lt.mp h1).eq_or_lt with h2 | h2
-      · rw [if_neg (by rw [h2]; exact lt_irrefl _), h2]
-      · rw [if_pos h2]
-  rw [JBessel.spectral_density, jbesselDensity]
-  by_cases ha : ν - ((d:Nat):ℝ) / ((2:Nat):ℝ) + ((1:Nat):ℝ) < ((1:Nat):ℝ)
-    <;> by_cases hk : k < ((1:Nat):ℝ) / ℓ
-    <;> (simp only [ha, hk, if_true, if_false, hmin, specialOf]; try rfl)
+  tie_real [JBessel.spectral_density, jbesselDensity, specialOf]
 
 /-! ### satisfiability of the hypothesis on `gamma` -/
 
